@@ -1656,6 +1656,9 @@ func (c *DnsController) __updateDnsCacheDeadline(cacheKey string, host string, d
 	if err != nil {
 		return err
 	}
+	// The packed-response fast path and the stale-while-revalidate window both read
+	// the cached copy of the deadline; it must be set before the entry is published.
+	newCache.deadlineNano.Store(deadline.UnixNano())
 
 	// OPTIMIZATION: Pre-pack the DNS response before publishing the cache entry.
 	// This avoids Pack() overhead on cache hits while keeping the published RR
